@@ -17,6 +17,16 @@
 (*  1894 packet clauses: ins [framing_ok; for_us; op; len; present; avail; body_len; class; has_event;       *)
 (*                            ntx; tx_op; present'; avail'; established']                                    *)
 (*  1895 recv clauses: ins [present; avail; n; class; nbytes; ntx; tx_op; present'; avail']                  *)
+(* TRANSMISSIONS THAT FAIL (the outcome of add_notify_wait_pop on the tx queue is an input):                  *)
+(*  1821..1832 = 1801..1812 with ins [s1; e1; s2; e2] ++ the inputs of the operation: the outcome of the      *)
+(*       transmission the operation may make, for a header-only packet (s1 e1) and for one with a payload     *)
+(*       (s2 e2): s = 0 Ok, 1 `add` failed with error e (nothing published), 2 `pop_used` failed with e       *)
+(*       (published, seen by the device); outs as 1801..1812, the packets being those the DEVICE saw          *)
+(*  1871..1882 (monitors) = 1821..1832 against the abstract spec (sp_step_tx): ins [n; the n inputs; outs]    *)
+(*  1896 a failed transmission leaves the connection as it was: ins [kind (1803..1812); s; e; present; est;   *)
+(*       avail; class; code; present'; est'; avail'] (the key the operation / packet names, before and after)  *)
+(*  1897 a failed send consumes no credit: ins [credit the peer granted; class; code; e; retry len; class']   *)
+(*  1898 a peer shutdown whose RST cannot be sent is not forgotten: ins [class; code; e; send class; code]    *)
 From VD Require Import Base.Words Model.ConnMgr Model.ConnMgrSpec.
 
 Record cmio := mkIo { io_md : mode; io_m : cm; io_s : spec }.
@@ -41,6 +51,9 @@ Definition dec_op (k : N) (ins : list N) : option cop :=
     | _ => None
     end
   else None.
+
+Definition dec_txres (s e : N) : txres := if s =? 0 then TxOk else if s =? 1 then TxAddFail e else TxPopFail e.
+Definition dec_txin (s1 e1 s2 e2 : N) : txin := (dec_txres s1 e1, dec_txres s2 e2).
 
 Definition enc_etype (t : etype) : list N :=
   match t with
@@ -196,7 +209,39 @@ Definition mon_recv (ins : list N) : bool :=
   | _ => false
   end.
 
-Definition connmgr_is_monitor (k : N) : bool := ((1851 <=? k) && (k <=? 1862)) || ((1890 <=? k) && (k <=? 1895)).
+(* an operation (or the reply to a packet) whose transmission failed returned the tx queue's error: the connection
+   it names is, through the public queries, exactly as before; in particular a connection that was not there is not
+   there afterwards (failed connect, request whose RESPONSE / RST could not be sent) and no buffered byte is gone *)
+Definition E_PeerSocketShutdown : N := serr SE_PeerSocketShutdown 0.
+Definition mon_txfail (ins : list N) : bool :=
+  match ins with
+  | [kind; s; e; present; est; avail; class; code; present'; est'; avail'] =>
+      if (1803 <=? kind) && (kind <=? 1812) then
+        if negb (s =? 0) && (class =? 1) && (code =? e) then
+          (present' =? present) && (est' =? est) && (avail' =? avail)
+        else true
+      else false
+  | _ => false
+  end.
+
+(* the peer granted `credit` bytes, a send failed in the tx queue, a retry of `len` bytes within the credit goes out *)
+Definition mon_send_credit (ins : list N) : bool :=
+  match ins with
+  | [credit; class; code; e; len; class'] =>
+      if (class =? 1) && (code =? e) && (len <=? credit) then class' =? 0 else true
+  | _ => false
+  end.
+
+(* poll on the peer's SHUTDOWN failed in the tx queue (the RST is still owed): a send is refused *)
+Definition mon_shut_remembered (ins : list N) : bool :=
+  match ins with
+  | [class; code; e; sclass; scode] =>
+      if (class =? 1) && (code =? e) then (sclass =? 1) && (scode =? E_PeerSocketShutdown) else true
+  | _ => false
+  end.
+
+Definition connmgr_is_monitor (k : N) : bool :=
+  ((1851 <=? k) && (k <=? 1862)) || ((1871 <=? k) && (k <=? 1882)) || ((1890 <=? k) && (k <=? 1898)).
 
 Definition cm_bad : list N := [77777].
 
@@ -211,6 +256,9 @@ Definition connmgr_step (st : option cmio) (k : N) (ins : list N) : option cmio 
   else if k =? 1893 then (st, [b2n (mon_stock ins)])
   else if k =? 1894 then (st, [b2n (mon_packet ins)])
   else if k =? 1895 then (st, [b2n (mon_recv ins)])
+  else if k =? 1896 then (st, [b2n (mon_txfail ins)])
+  else if k =? 1897 then (st, [b2n (mon_send_credit ins)])
+  else if k =? 1898 then (st, [b2n (mon_shut_remembered ins)])
   else
     match st with
     | None => (st, cm_bad)
@@ -221,6 +269,33 @@ Definition connmgr_step (st : option cmio) (k : N) (ins : list N) : option cmio 
               let '(m', r, tx) := cm_step (io_md io) (io_m io) o in
               (Some (mkIo (io_md io) m' (io_s io)), enc_result r tx)
           | None => (st, cm_bad)
+          end
+        else if (1821 <=? k) && (k <=? 1832) then
+          match ins with
+          | s1 :: e1 :: s2 :: e2 :: opins =>
+              match dec_op (k - 20) opins with
+              | Some o =>
+                  let '(m', r, tx) := cm_step_tx (io_md io) (io_m io) o (dec_txin s1 e1 s2 e2) in
+                  (Some (mkIo (io_md io) m' (io_s io)), enc_result r tx)
+              | None => (st, cm_bad)
+              end
+          | _ => (st, cm_bad)
+          end
+        else if (1871 <=? k) && (k <=? 1882) then
+          match ins with
+          | n :: rest =>
+              let '(allins, observed) := cm_split_at (cm_cnt n rest) rest in
+              match allins with
+              | s1 :: e1 :: s2 :: e2 :: opins =>
+                  match dec_op (k - 70) opins with
+                  | Some o =>
+                      let '(s', r, tx) := sp_step_tx (io_md io) (io_s io) o (dec_txin s1 e1 s2 e2) in
+                      (Some (mkIo (io_md io) (io_m io) s'), [b2n (cm_list_eqb (enc_result r tx) observed)])
+                  | None => (st, cm_bad)
+                  end
+              | _ => (st, cm_bad)
+              end
+          | _ => (st, cm_bad)
           end
         else if k =? 1840 then
           (st, concat (map (fun key => enc_probe (cm_entry key (m_conns (io_m io)))) (dec_keys (length ins) ins)))
